@@ -84,6 +84,13 @@ func check(c caseT) (key, desc string) {
 			return "insert-error", fmt.Sprintf("%v", err)
 		}
 	}
+	// an insert under an id that is already stored is refused - and the collection stays what it was (insert-only, n items)
+	if n > 0 {
+		other := grid[(c.Points[0]+3)%len(grid)]
+		if err := ix.Insert(pid(c.Points[n-1]), append([]float32{}, other...), nil, c.Levels[0]); err != index.ItemAlreadyExistsError {
+			return "duplicate-insert-not-refused", fmt.Sprintf("%v", err)
+		}
+	}
 	for _, q := range queries {
 		type sc struct {
 			p int
@@ -349,6 +356,9 @@ func main() {
 			if thorough {
 				cfgs = append(cfgs, cfg{sp, 2, true, true, pol, false}, cfg{sp, 1, false, false, pol, false})
 			}
+			if pol == 0 && !thorough {
+				cfgs = append(cfgs, cfg{sp, 2, true, true, pol, false}) // heuristic selection with candidate extension
+			}
 			if sp == "cosine" && (pol == 0 || thorough) {
 				cfgs = append(cfgs, cfg{sp, 2, false, false, pol, true}, cfg{sp, 2, true, false, pol, true})
 			}
@@ -441,6 +451,7 @@ func main() {
 	run.Assumptions = []string{
 		"clause 1 (directed part): n = 2M+1 for M in {4, 16 = library default, 32}: 2M clustered points + one far outlier, outlier and one level-1 vertex at {first, middle, last}; k in {1,2,M,n-1,n}",
 		"clause 1, cosine metric: a second 8-point grid with scaled copies (parallel vectors, mutual cosine distance zero up to rounding) and queries parallel to stored points; a query whose exact ranking has ties is checked for completeness and ascending true scores at k = n",
+		"clause 1: after the n inserts one more insert under the last id (another vector) must be refused and leave no trace; both tiers include heuristic selection with candidate extension",
 		"clause 1: 8-point grid in R^2, n <= 2M+1 (M=2: n<=5; quick n<=4), levels {0,1,2}^n, ef = efConstruction = n, queries with pairwise distinct distances (tied queries skipped), map-order policies {ascending, descending}",
 		"clause 2 is evaluated on a fixed finite family of random collections (default parameters) and is a SAMPLE of its quantifier, not exhaustive",
 	}
